@@ -5,6 +5,7 @@ from ..gen import msgs as M
 from ..gen import wrappers as W
 from ..translate import arith2
 from ..translate import msgsrc
+from ..translate import wrapsrc
 
 SPEC = dict(
     manifest=dict(
@@ -40,8 +41,9 @@ SPEC = dict(
                    'semantically (HashMap.parse for the structure, the spec decoder per value), its root cell being opaque to the theorems.',
         technique='Lean 4 proof (hand model) + differential correspondence with the library + source-regenerated layout decisions'),
     translators=[('transaction.py MessageAny.serialize inline/reference decisions->Generated/MsgLayout.lean', arith2.regenerator('MsgLayout')),
-                 ('transaction.py / account.py / block.py whole message serialize / deserialize methods->Generated/MsgSrc.lean', msgsrc.regenerate)],
-    lean_targets=['TonVerif.Proofs.SrcMsg', 'TonVerif.Proofs.SrcMsgSer'],
+                 ('transaction.py / account.py / block.py whole message serialize / deserialize methods->Generated/MsgSrc.lean', msgsrc.regenerate),
+                 ('custom/wallet.py / custom/nft.py constructors + whole serialize / deserialize methods->Generated/WrapSrc.lean', wrapsrc.regenerate)],
+    lean_targets=['TonVerif.Proofs.SrcMsg', 'TonVerif.Proofs.SrcMsgSer', 'TonVerif.Proofs.SrcWrap'],
     design_ref='DESIGN.md §6 C15',
     rule='boundary sweep: header kind (internal / ext-in / ext-out) x extra-currency dict (0/1/many entries) x state-init shape '
          '(absent, 0..3 refs, split_depth, tick-tock) x body bits {0, 1, each exact inline limit -1/0/+1, 1023} x body refs 0..4, plus '
@@ -550,14 +552,27 @@ def src_search(ctx):
             ctx.notes.append('regenerated != hand model on: ' + l[:40] + ' .. ' + l[-120:])
     except Exception as e:
         ctx.notes.append(f'source-diff search (MsgSrc) failed: {type(e).__name__}: {e}')
-    return False
+    # the regenerated wrappers (Generated/WrapSrc.lean: constructors, serialize, deserialize) against the hand model on the wrapper
+    # requests of check_wrappers + the constructor requests; when they differ the wrapper values are judged FIRST in `run`
+    wdiff = []
+    try:
+        wreqs = [l for l, _ in wrapsrc.harness_requests()]
+        wdiff = wrapsrc.diff_requests(ctx, wreqs)
+        for l in wdiff[:5]:
+            ctx.notes.append('regenerated wrapper != hand model on: ' + l[:60] + ' .. ' + l[-120:])
+    except Exception as e:
+        ctx.notes.append(f'source-diff search (WrapSrc) failed: {type(e).__name__}: {e}')
+    return bool(wdiff)
 
 
 def run(ctx):
     rng = ctx.rng
     pool = M.leaf_pool(rng)
     if ctx.search:
-        src_search(ctx)
+        if src_search(ctx):
+            check_wrappers(ctx, pool)
+            if ctx.failures:
+                return
     # the F17 input first
     f17 = dict(info=('I', True, False, False, ['s', 0, '11' * 32], ['s', 0, '11' * 32], 5, {1: 5}, 0, 0, 0, 0),
                init=dict(sd=None, tt=None, code=pool[1], data=pool[1], lib=pool[1]), body=M.mk_cell('', [pool[1]]))
